@@ -156,6 +156,11 @@ func promCases() []*PromCase {
 		}
 		out = append(out, &PromCase{Type: "string", TMs: 1700000000123, Str: h})
 	}
+	for _, f := range floatGrid { // the whole grid at one timestamp (the 16 extremes x 5 timestamps follow)
+		for _, tp := range []string{"matrix", "vector", "scalar"} {
+			out = append(out, &PromCase{Type: tp, Series: []SeriesDef{{Labels: lb("k", "v")}}, Sizes: []int{2}, TMs: 1700000000123, VBits: math.Float64bits(f)})
+		}
+	}
 	for _, f := range floats {
 		for _, t := range tms {
 			for _, tp := range []string{"matrix", "vector", "scalar"} {
